@@ -1,4 +1,5 @@
 """C07 Attribution is single-use (DESIGN §5 C07)."""
+import re
 from lib import cg, mir, q
 
 AP = "azure_proxy_agent::"
@@ -106,12 +107,23 @@ def run(F, R, tier):
                             ctor.add(q.base_name(o2[1]))
                             if B.origins(B.blocks[o2[2]]["term"]["args"][0]) == {("param", "source_port", ())}:
                                 key_ok = True
-        sib[name] = (names, ctor, key_ok)
+        # the typed view of the map (key / value word counts) - a wrong value size makes every aya operation on it fail
+        mty = set()
+        for bi, w, r, t in B.calls_named("TryFrom::try_from", "try_from"):
+            ty = str(B.locals[t["dest"]["l"]].get("ty", ""))
+            mm = re.search(r"HashMap<[^,]*, (\[u32; \d+\]), (\[u32; \d+\])>", ty)
+            if mm:
+                mty.add((mm.group(1), mm.group(2)))
+        sib[name] = (names, ctor, key_ok, mty)
         R.check(key_ok, "C07.R2", "C07.R2:%s:key-from-port" % fn["id"], "%s:%s" % (fn["file"], fn["line"]),
                 "%s: map '%s', key = %s(source_port)" % (name, sorted(map(str, names)), sorted(ctor)),
                 "%s: key is not built from the source_port parameter: %s" % (name, sorted(ctor)))
     if len(sib) == 2:
         a, b = sib["BpfObject::lookup_audit"], sib["BpfObject::remove_audit_map_entry"]
+        R.check(a[3] == b[3] and len(a[3]) == 1, "C07.R2", "C07.R2:sibling-map-type", "-",
+                "lookup and remove view audit_map with the same key / value types %s" % sorted(a[3]),
+                "lookup views the map as %s, remove as %s: with a wrong size aya refuses the map and the record is never consumed"
+                % (sorted(a[3]), sorted(b[3])))
         R.check(a[0] == b[0] and len(a[0]) == 1 and a[1] == b[1], "C07.R2", "C07.R2:sibling-agreement", "-",
                 "lookup and remove open the same map %s and build the key with the same constructors %s" % (sorted(a[0]), sorted(a[1])),
                 "lookup uses %s/%s, remove uses %s/%s" % (sorted(map(str, a[0])), sorted(a[1]), sorted(map(str, b[0])), sorted(b[1])))
